@@ -609,6 +609,11 @@ class Machine:
         """iter(v)"""
         if isinstance(v, Ref) and v.kind == "ext":
             return self.heap[(v.id, "impl")].iter(self, v)
+        h = getattr(self.c, "iter_hook", None)
+        if h is not None:
+            r = h(self, v)
+            if r is not NotImplemented:
+                return r
         if isinstance(v, Ref):
             if v.kind in ("iter", "gen", "zip"):
                 return v
@@ -1004,6 +1009,9 @@ class Machine:
                 raise Unsupported("'is' on values")
             return r if isinstance(op, ast.Is) else not r
         if isinstance(op, (ast.In, ast.NotIn)):
+            if isinstance(b, Ref) and b.kind == "ext":
+                r = self.heap[(b.id, "impl")].contains(self, b, a)
+                return r if isinstance(op, ast.In) else z3.Not(r)
             if isinstance(b, tuple):
                 r = zor(*[self.compare(ast.Eq(), a, x) for x in b]) if b else False
                 if isinstance(op, ast.NotIn):
@@ -1594,6 +1602,16 @@ class Machine:
     def s_Pass(self, node):
         pass
 
+    def s_Delete(self, node):
+        for t in node.targets:
+            if isinstance(t, ast.Subscript) and not isinstance(t.slice, ast.Slice):
+                base = self.eval(t.value)
+                key = self.eval(t.slice)
+                if isinstance(base, Ref) and base.kind == "ext":
+                    self.heap[(base.id, "impl")].delitem(self, base, key)
+                    continue
+            raise Unsupported("del of %s" % ast.dump(t)[:60])
+
     def s_Assign(self, node):
         v = self.eval(node.value)
         for t in node.targets:
@@ -1936,11 +1954,15 @@ class Machine:
                 self.ghost["out"] = z3.Const("out0", z3.ArraySort(INT, c.out_elem.sort))
             for text in c.ghost_init:
                 self.ghost_exec(text)
+            gh = getattr(c, "ghost_init_hook", None)
+            if gh is not None:
+                gh(self)
             for label, text in c.axioms:
                 self.assume(self.spec(text))
             self.emit_lemmas()
             if not self.feasible():
                 raise Infeasible()
+            self.entry_pc = list(self.pc)
             self.covered.add("entry")
             try:
                 self.exec_block(self.fn.body)
@@ -2052,7 +2074,8 @@ def _sf_quant(kind):
         names = [a.arg for a in lam.args.args]
         sorts = [INT] * len(names)
         if len(node.args) > 1:
-            sorts = [{"Int": INT, "Real": REAL}[a.id] for a in node.args[1:]]
+            table = dict({"Int": INT, "Real": REAL}, **getattr(m.c, "sorts", {}))
+            sorts = [table[a.id] for a in node.args[1:]]
         m.counter += 1
         bvs = [z3.Const("%s!q%d" % (nm, m.counter), s) for nm, s in zip(names, sorts)]
         m.quant_scope.append(dict(zip(names, bvs)))
